@@ -815,17 +815,27 @@ func (g *G) AdminOp(label string, holderPct int, among []string) *Op {
 func (g *G) LedgerOpDraw(label string) *Op {
 	m := g.W.Model
 	lo := &LedgerOp{}
-	switch g.Int(label+"/k", 0, 7) {
+	acct := func() string {
+		if g.Pct(label+"/mod", 12) {
+			return ModuleAddr()
+		}
+		return Acct(g.Acct(label + "/a"))
+	}
+	switch g.Int(label+"/k", 0, 10) {
 	case 0:
 		lo.What = "pause"
 	case 1, 2:
 		lo.What = "unpause"
 	case 3:
 		lo.What = "blacklist"
-		lo.Addr = Acct(g.Acct(label + "/a"))
+		lo.Addr = acct()
 	case 4:
 		lo.What = "unblacklist"
-		lo.Addr = Acct(g.Acct(label + "/a"))
+		lo.Addr = acct()
+	case 8:
+		lo.What = "nominter"
+	case 9, 10:
+		lo.What = "minter"
 	case 5:
 		lo.What = "allowance"
 		a := g.Amount(label+"/amt", nil)
